@@ -132,7 +132,7 @@ def work(case: dict) -> dict:
             units = [u.get_text() for r in res for u in r.iterate_units()] + [r.body_plain or "" for r in res]
             cells = [str(c) for r in res for t in r.iterate_tables() for row in t.get_table() for c in row]
             other = [str(r.subject or "") for r in res]
-            obs["body_html_kept"] = any(bool(r.body_html) for r in res)
+            obs["html_fallback"] = any(not r.body_plain and bool(r.body_html) for r in res)
         else:
             data = carrier_bytes(carrier, doc, params)
             fn = _X["read_" + carrier]
@@ -339,6 +339,12 @@ def evaluate(run, bodies, cases, meta, results) -> None:
                 run.inconclusive_cases += 1          # wall watchdog without CPU use: the machine, not the code
                 verdicts[role] = None
                 continue
+            if carrier == "msg" and obs.get("html_fallback") and not any(c in "bv" for c in meta[cid]["tokens"].values()):
+                # README: a mail returns body_plain when present, else body_html.  A body without any visible text has no
+                # body_plain, the raw HTML is the documented unit; nothing about removal is claimed for it.
+                run.count("msg_body_without_visible_text_documented_html_fallback")
+                verdicts[role] = None
+                continue
             syms = judge(meta[cid]["tokens"], obs)
             if role == "ref":
                 if not syms:
@@ -427,7 +433,7 @@ def main(run) -> None:
         "the visible skeleton is well-formed; malformed markup only occurs inside removable constructs, except in the unterminated-trailing-construct family where the input breaks off inside a comment / declaration / PI (closing tags cut, last paragraph or div left open) — twin and reference share the same broken-off skeleton",
         "an input that ends inside an unterminated comment, declaration or processing instruction is comment to the end of input (HTML tokenisation): its tokens are hidden, nothing visible follows",
         "order / separation / placement of visible text is only judged relative to the same document with the removable constructs deleted, never absolutely",
-        "MSG path = msg_email_extractor._html_to_text called directly (no .msg container); EML/mbox return raw HTML and are out of scope",
+        "MSG path = read_msg_format_mail on a minimal synthetic .msg (vlib/gen/cfb.py) with the body in PidTagHtml; EML/mbox return raw HTML and are out of scope; an MSG body without any visible text falls back to the raw HTML as documented (README) and is not judged",
         "the EPUB chapter parser is html.parser based (not XML), so the same tag-soup bodies are used; self-closed removable elements are judged in EPUB (XHTML) only",
         "risky constructs are placed at non-table positions only (inside table cells the same mechanisms also eat the cell end tag and show as other symptoms)",
     ]
@@ -437,7 +443,7 @@ def main(run) -> None:
         G.systematic_preambles(rng),
         G.quiet_fragments(rng, run.n(30, 400)),
         G.systematic_risky(rng),
-        G.random_clean(rng, run.n(1000, 30000)),
+        G.random_clean(rng, run.n(900, 30000)),
         G.random_risky(rng, run.n(250, 8000)),
     ))
     for b in bodies:        # generator self-check: twin shares the ground truth, tokens are really in the document
@@ -471,7 +477,7 @@ def main(run) -> None:
     run.require("mhtml_raw_search_path_taken", c.get("mhtml_raw_search_path_taken", 0), run.n(300, 5000))
     run.require("mhtml_raw_search_with_document_inside_removed_content", c.get("mhtml_raw_search_with_document_inside_removed_content", 0), run.n(15, 300))
     run.require(f"risky_pairs_{QUIET}_msg", c.get(f"risky_pairs_{QUIET}_msg", 0), run.n(20, 300))
-    run.require("msg_long_preamble_first_in_fragment", c.get("msg_long_preamble_first_in_fragment", 0), run.n(12, 100))
+    run.require("msg_long_preamble_first_in_fragment", c.get("msg_long_preamble_first_in_fragment", 0), run.n(12, 40))
     run.require("msg_bodies_that_look_like_html", c.get("msg_looks_like_html_true", 0), run.n(600, 8000))
     need = [f"pos:{p}" for p in G.POSITIONS] + [f"attr:{a}" for a in G.ATTR_KINDS] + [f"case:{k}" for k in G.CASE_KINDS] + \
            [f"close:{k}" for k in G.CLOSE_KINDS] + [f"c:raw:{k}" for k in G.RAW_KINDS] + [f"c:normal:{k}" for k in G.NORMAL_KINDS] + \
